@@ -3,6 +3,7 @@
 # name -> dict(backend='verus'|'kani', tier='quick'|'thorough', params=None|dict)
 UNITS = [
     {'name': 'bitvec.core', 'backend': 'verus', 'tier': 'quick'},
+    {'name': 'bitvec.iter', 'backend': 'verus', 'tier': 'quick'},
 ]
 
 TRUSTED_BASE = [
